@@ -179,6 +179,29 @@ def run_weighted(ctx, fname):
     if positive and np.any(theta < -1e-12):
         ctx.fail('optimal:' + fname, dict(sig, what='negative_weight'), f'non-negative fitter returned {theta}',
                  wit(theta=theta))
+    if iterative:
+        # heuristic multi-start BFGS: not covered by the optimality clause (it names the regression fitters) and
+        # observed to stop up to 6e-2 short of the optimum on this tree. Only the constraint clauses are decided
+        # here (unit norm, non-negativity, finite values, restriction to the selected conditions).
+        unused = [c for c in range(prob['n_cond']) if c not in set(prob['pos'])]
+        if unused:
+            iu = np.triu_indices(prob['n_cond'], 1)
+            b2 = prob['basis'].copy()
+            for col, (a, b) in enumerate(zip(iu[0], iu[1])):
+                if a in unused or b in unused:
+                    b2[:, col] = rng.uniform(0.05, 4, size=b2.shape[0])
+            seed = int(rng.integers(2 ** 31))
+            np.random.seed(seed)
+            th_a = call_fitter(fname, model, data_rdms(prob), prob, method, sigma, normalize)
+            np.random.seed(seed)
+            th_b = call_fitter(fname, ModelWeighted('w', model_rdms(prob, b2)), data_rdms(prob), prob, method,
+                               sigma, normalize)
+            ctx.case('selection_only', sig)
+            if not np.array_equal(np.asarray(th_a), np.asarray(th_b)):
+                ctx.fail('selection_only', sig, f'{fname}: theta changed from {np.asarray(th_a).tolist()} to '
+                         f'{np.asarray(th_b).tolist()} (same start points) when only model dissimilarities of '
+                         f'unselected conditions {unused} were altered', wit(unused=unused))
+        return
     # competitors
     nb = prob['n_basis']
     cands = []
